@@ -160,14 +160,14 @@ def configs(tier: str, prop: str) -> list[dict[str, Any]]:
     out: list[dict[str, Any]] = []
     quick = tier == "quick"
     for name in hand_models():
-        out.append({"kind": "hand", "name": name, "seed": 0, "params": {}, "entropies": [0, 1]})
+        out.append({"kind": "hand", "name": name, "seed": 0, "params": {}, "entropies": [0, 1], "wide": not quick})
     if prop == "C13":
-        nseeds = 10 if quick else 96
+        nseeds = 6 if quick else 96
     else:
-        nseeds = 6 if quick else 48
+        nseeds = 4 if quick else 48
     for s in range(nseeds):
         # quick: the empty-seed branch of requestSeed is explored on the hand-built and grid models only
-        out.append({"kind": "rng", "name": f"default/{s}", "seed": s, "params": {}, "entropies": [0] if quick else [0, 1]})
+        out.append({"kind": "rng", "name": f"default/{s}", "seed": s, "params": {}, "entropies": [0] if quick else [0, 1], "wide": not quick})
     grid: list[tuple[str, dict[str, Any]]] = [
         ("only-default-session/all-services", {"p_session": 0.0, "p_service": 1.0}),
         ("no-optional", {"optional_sessions": [], "optional_services": [], "p_session": 1.0, "p_service": 1.0}),
@@ -187,15 +187,19 @@ def configs(tier: str, prop: str) -> list[dict[str, Any]]:
             "dense-sessions",
             {"mandatory_sessions": [1], "optional_sessions": [2, 3, 0x7E], "p_session": 1.0, "p_service": 0.05},
         ),
-        ("always-identifiers", {"p_identifier": 1.0, "p_correct_payload_format": 1.0, "p_dtc_status_mask": 1.0, "p_service": 0.5}),
-        ("never-identifiers", {"p_identifier": 0.0, "p_correct_payload_format": 0.0, "p_dtc_status_mask": 0.0, "p_service": 0.5}),
+        ("always-identifiers", {"p_identifier": 1.0, "p_correct_payload_format": 1.0, "p_dtc_status_mask": 1.0, "p_service": 1.0, "p_session": 0.0}),
+        ("never-identifiers", {"p_identifier": 0.0, "p_correct_payload_format": 0.0, "p_dtc_status_mask": 0.0, "p_service": 1.0, "p_session": 0.0}),
         ("no-mandatory-service", {"mandatory_services": [], "p_service": 0.3}),
     ]
     gseeds = (0,) if quick else tuple(range(8))
     for name, params in grid:
         for s in gseeds:
-            out.append({"kind": "rng", "name": f"{name}/{s}", "seed": s, "params": params, "entropies": [0, 1]})
+            out.append({"kind": "rng", "name": f"{name}/{s}", "seed": s, "params": params, "entropies": [0, 1], "wide": not quick})
     return out
+
+
+def wide(cfg: dict[str, Any]) -> bool:
+    return bool(cfg.get("wide", True))
 
 
 class Ecu:
@@ -313,17 +317,19 @@ def first_bytes(m: ref.Model, sid: int) -> list[int]:
     return sorted(s)
 
 
-def short_alphabet(m: ref.Model) -> list[bytes]:
+def short_alphabet(m: ref.Model, wide: bool = True) -> list[bytes]:
     """every SID 0x00..0xFF x payloads of length 0..2 (first byte: boundary bytes + every sub-function the
-    model knows for that SID, with and without suppress bit; second byte: boundary bytes)."""
+    model knows for that SID, with and without suppress bit; second byte: boundary bytes - for SIDs that neither
+    the model nor the ISO format table knows only {00, FF} unless `wide`)."""
     out: list[bytes] = []
     for sid in range(256):
         out.append(bytes([sid]))
         fb = first_bytes(m, sid)
         for a in fb:
             out.append(bytes([sid, a]))
+        second = A8 if (wide or sid in m.anywhere or sid in ref.FORMAT_SIDS) else (0x00, 0xFF)
         for a in fb:
-            for b in A8:
+            for b in second:
                 out.append(bytes([sid, a, b]))
     return out
 
